@@ -119,6 +119,13 @@ def install(engine):
             st = st.with_ghost("responses", tuple(lst))
         yield st, SV_NONE
 
+    url_unquote = z3.Function("url_unquote", S.Str, S.Str)
+
+    def x_unquote(engine, st, args, kwargs, node):
+        # percent-decoding: SOME text determined by the argument; nothing relates its '..' parts to those of the argument
+        yield st, sv_str(url_unquote(engine.as_str(args[0])))
+
+    engine.ext_models["urllib.parse.unquote"] = x_unquote
     engine.ext_models["<call-of-value>"] = call_of_value
     engine.ext_models["json.loads"] = x_json_loads
     engine.ext_models["json.dumps"] = x_json_dumps
